@@ -233,16 +233,32 @@ template<class C> static bool chainsOk(const C& c)
   return true;
 }
 
-// white-box: canonical id of an item = 4 * (index of its block in allocation order) + slot
+// items per block of each container, as read from the current sources by the translator of tools/areas/hash.py
+// (the headers have no name for it that the harness could use)
+#ifndef HASH_IPB_MAP
+#define HASH_IPB_MAP 4
+#endif
+#ifndef HASH_IPB_SET
+#define HASH_IPB_SET 4
+#endif
+#ifndef HASH_IPB_POOL
+#define HASH_IPB_POOL 4
+#endif
+static usize ipbOf(const HM&) { return HASH_IPB_MAP; }
+static usize ipbOf(const HS&) { return HASH_IPB_SET; }
+static usize ipbOf(const PM&) { return HASH_IPB_POOL; }
+
+// white-box: canonical id of an item = (items per block) * (index of its block in allocation order) + slot
 template<class C> static long idOf(const C& c, const typename C::Item* it)
 {
+  const usize ipb = ipbOf(c);
   usize nb = 0, idx = 0;
   for(const typename C::ItemBlock* b = c.blocks; b; b = b->next) ++nb;
   for(const typename C::ItemBlock* b = c.blocks; b; b = b->next, ++idx)
   {
     const char* base = (const char*)b + sizeof(typename C::ItemBlock);
-    if((const char*)it >= base && (const char*)it < base + 4 * sizeof(typename C::Item))
-      return (long)(4 * (nb - 1 - idx) + ((const char*)it - base) / sizeof(typename C::Item));
+    if((const char*)it >= base && (const char*)it < base + ipb * sizeof(typename C::Item))
+      return (long)(ipb * (nb - 1 - idx) + ((const char*)it - base) / sizeof(typename C::Item));
   }
   return -1;
 }
